@@ -4,7 +4,7 @@ From ClapModel Require Import Base.Bytes Base.Machine Base.Utf8.
 From ClapModel Require Value.TypedStore Value.TypedStoreProofs Value.ValueParsers Value.IntParseProofs.
 From ClapModel Require Import Parse.Cmd Parse.Build Parse.Valid Parse.Matcher Parse.Errors Parse.Validator Parse.Parser.
 From ClapModel Require Import ParseProofs.Relations ParseProofs.Totality ParseProofs.Unparse ParseProofs.UnparseTop
-                              ParseProofs.Dispatch ParseProofs.TypedInv ParseProofs.TypedView ParseProofs.TypedAccess ParseProofs.TypedReject.
+                              ParseProofs.Dispatch ParseProofs.TypedInv ParseProofs.TypedView ParseProofs.TypedAccess ParseProofs.TypedReject ParseProofs.TypedMerge ParseProofs.Globals.
 From RecordUpdate Require Import RecordSet.
 Import RecordSetNotations.
 Import ListNotations.
@@ -113,4 +113,45 @@ Module TypedEx.
     fm_get [103] (ms_args m) = Some ma /\ m_raw ma = [[[97; 98; 99]]] /\
     vp_parse (VPI64 0 9) [97; 98; 99] = Some EValueValidation.
   Proof. exists cg, argv_g. do 3 eexists. vm_compute. repeat split; reflexivity. Qed.
+  (** ... while the ordinary use of a global argument satisfies [globals_consistent]: `--cfg` (i64 0..9,
+      global) defined at the root, copied into `sub` by the build step, given after the subcommand name *)
+  Definition w_cfg : bytes := [99; 102; 103].
+  Definition cfg : arg := (arg_new w_cfg) <| a_long := Some w_cfg |> <| a_action := Some ASet |>
+                            <| a_vp := Some (VPI64 0 9) |> <| a_global := true |>.
+  Definition ck : cmd := (cmd_new [112]) <| c_args := [cfg; v] |> <| c_subs := [sub] |>.
+  Definition argv_k : list bytes := [[112]; [45; 118]; w_sub; dd w_cfg; [52]].
+  Definition sck : cmd := match build_subcommand (build_self ck) w_sub with Some sc => sc | None => ck end.
+  Lemma ex_merge_consistent : exists m st,
+    valid ck = true /\ do_parse ck (List.tl argv_k) = OOk m /\ m = reported ck st /\
+    chain_specs (build_self ck) (into_inner (mt st)) [cmd_spec (build_self ck); cmd_spec sck] /\
+    globals_consistent
+      (used_global_args (S (matches_depth (into_inner (mt st))))
+         (build_recursive (S (S (depth (build_self ck)))) ck) (into_inner (mt st)))
+      [cmd_spec (build_self ck); cmd_spec sck] (levels (into_inner (mt st))) /\
+    raws m w_cfg = Some [[[52]]] /\ opt_map (fun sm => raws sm w_cfg) (sub_of m) = Some (Some [[[52]]]).
+  Proof.
+    destruct (get_matches_with (S (S (depth (build_self ck)))) (build_self ck) (List.tl argv_k) ps_new) as [st|e st|x] eqn:E;
+      [|vm_compute in E; discriminate|vm_compute in E; discriminate].
+    eexists. exists st.
+    assert (Est : st = match get_matches_with (S (S (depth (build_self ck)))) (build_self ck) (List.tl argv_k) ps_new with ROk s => s | _ => ps_new end)
+      by (rewrite E; reflexivity).
+    vm_compute in Est. subst st.
+    split; [vm_compute; reflexivity|]. split; [vm_compute; reflexivity|]. split; [vm_compute; reflexivity|].
+    split.
+    { unfold into_inner. cbn [mt mt_args mt_sub].
+      eapply CS_sub; [vm_compute; reflexivity|].
+      change (chain_specs sck (Matches (mt_args (mt (mkPs (mkMatcher [(w_cfg, mkMarg (Some SCmdLine) [2] [[[52]]] false false)] None None) 2 None 0))) None) [cmd_spec sck]).
+      apply CS_leaf. }
+    split; [|vm_compute; split; reflexivity].
+    match goal with |- globals_consistent ?G _ _ => assert (Egl : G = [w_cfg; w_cfg]) by (vm_compute; reflexivity); rewrite Egl end.
+    assert (H1 : cmd_spec (build_self ck) w_cfg = Some (VPI64 0 9)) by (vm_compute; reflexivity).
+    assert (H2 : cmd_spec sck w_cfg = Some (VPI64 0 9)) by (vm_compute; reflexivity).
+    revert H1 H2. generalize (cmd_spec (build_self ck)) as s1. generalize (cmd_spec sck) as s2.
+    intros s2 s1 H1 H2 g Hg sp vp Hsp Hs sp' l' ma Hin Hget.
+    assert (g = w_cfg).
+    { unfold mem_id in Hg. cbn [existsb] in Hg. rewrite Bool.orb_false_r, Bool.orb_diag in Hg. apply beq_eq in Hg. exact Hg. }
+    subst g.
+    assert (vp = VPI64 0 9) by (destruct Hsp as [<-|[<-|[]]]; congruence). subst vp.
+    vm_compute in Hin. destruct Hin as [Hin|[Hin|[]]]; inversion Hin; subst; assumption.
+  Qed.
 End TypedEx.
